@@ -214,6 +214,16 @@ impl<S: Read + Write> Link<S> {
         self.stream.shutdown()
     }
 
+    /// Are there bytes already received and decrypted by the TLS layer
+    /// but not yet read ? They will never be announced by a poll of the
+    /// underlying socket
+    pub fn has_pending_data(&self) -> bool {
+        match &self.stream {
+            Stream::Raw(_) => false,
+            Stream::Ssl(stream) => stream.buffered_read_size().unwrap_or(0) > 0
+        }
+    }
+
     #[cfg(feature = "integration")]
     pub fn get_stream(self) -> Stream<S> {
         self.stream
